@@ -58,6 +58,13 @@ func VerifMergeOrder() {
 	}
 	rt.Assert(got.Total == int64(len(all)), "total = number of samples")
 	rt.Assert(got.NotExists == notExists, "not-exists counts add up")
+	if len(all) == 0 {
+		// a bin in which no matching document has a value: there is nothing to take a quantile of
+		for _, q := range []float64{0, 0.5, 1} {
+			rt.Assert(math.IsNaN(got.Quantile(q)), "a bin without values has no quantile (NaN), whatever the merge order")
+		}
+		rt.Reach("empty-bin")
+	}
 	if len(all) > 0 {
 		mn, mx := all[0], all[0]
 		for _, v := range all[1:] {
